@@ -91,6 +91,8 @@ type Gen struct {
 	NCalls, NClosures, NHandlers, NPCalls, NCoroutines int
 	errN                                               int
 	strPool                                            []string
+	// Fault is filled by FaultProgram.
+	Fault *FaultInfo
 }
 
 func New(r *rand.Rand, f Features) *Gen {
